@@ -1045,6 +1045,20 @@ func c03CallOptions(c *core.Ctx) {
 			}
 			_, mx, ok := core.CountRange(core.Entry(inv), isFan, nil)
 			c.Check(ok && mx <= 1, core.FuncName(inv)+":"+name+":at-most-once", inv.Pos(), "the reply metadata is handed to the call options at most once per call", "on some path of the unary call "+name+" runs more than once: the later run overwrites the targets the earlier one filled (with whatever part of the reply it was given — an empty set for the headers when it is run over the trailers)")
+			// ... and a failed call fills them too (grpc.Header / grpc.Trailer are filled whatever the status: the
+			// trailers of a failed call are where the error's context travels): the status decoder that makes the
+			// call return the reply's non-OK status does not run before the fan-out
+			for _, dec := range core.CallsIn(inv, func(call *ssa.Call, ci core.CallInfo) bool {
+				return ci.Static != nil && core.PkgIs(ci.Static, "httpgrpc") && len(ci.Static.Params) == 1 && core.TypeStr(ci.Static.Params[0].Type()) == "*net/http.Response" && strings.HasSuffix(core.TypeStr(call.Type()), "status.Status")
+			}) {
+				late := token.NoPos
+				for in := range core.Walk(core.After(dec), nil, nil) {
+					if isFan(in) {
+						late = in.Pos()
+					}
+				}
+				c.Check(late == token.NoPos, core.FuncName(inv)+":"+name+":before-the-status-verdict", dec.Pos(), "the reply metadata is handed out before the reply's status can end the call", "the reply's status is decoded (and a non-OK one returned) before "+name+" runs: a failed unary call leaves the caller's grpc.Header / grpc.Trailer targets empty")
+			}
 		}
 	}
 	c.Check(nH >= 2 && nT >= 2, "httpgrpc:fan-out-sites", token.NoPos, fmt.Sprintf("HTTP client hands headers to the options at %d site(s) and trailers at %d (unary and streaming)", nH, nT), fmt.Sprintf("HTTP client calls SetHeaders %d× and SetTrailers %d×: expected both on the unary and the streaming path", nH, nT))
